@@ -1,5 +1,7 @@
 """C14 -- user-defined pools: unit <-> work-unit mapping (structural part)."""
-from abtverif import cfg, locks, seq
+import re
+
+from abtverif import canon, cfg, locks, seq, tables
 from abtverif.seq import idx, is_call, show, has_if, held_at
 from . import common, C03
 
@@ -30,48 +32,166 @@ UH = "src/include/abti_unit.h"
 FUNCS = ["ABTI_unit_set_associated_pool", "ABTI_thread_init_pool", "ABTI_thread_set_associated_pool",
          "ABTI_thread_unset_associated_pool"]
 
+# Canonical (abtverif.canon) spellings: record/field names and callee names of the repository only.  Locals are never
+# named: a value is identified by what it was computed from (single reaching definition), an object by its access
+# path from a parameter / a call (canon.rooted).
+CUR_POOL = "ABTI_thread::p_pool"
+CUR_UNIT = "ABTI_thread::unit"
+OLD_HANDLE = "ABTI_pool_get_handle(%s)" % CUR_POOL
+_CREATED = re.compile(r"^\(\*[A-Za-z_0-9:.]*\bp_create_unit\)\(")
+
+
+def _eq_sides(label):
+    """(a, b) of a canonical equality label `a == b` (top level), else None."""
+    depth = 0
+    for k in range(len(label)):
+        c = label[k]
+        if c in "([{":
+            depth += 1
+        elif c in ")]}":
+            depth -= 1
+        elif depth == 0 and label.startswith(" == ", k):
+            return label[:k], label[k + 4:]
+    return None
+
+
+class _ValueSel(seq.Sel):
+    """Sel that also records every plain definition of a local (`T x = e;`, `x = e;`) as ('def', x, node of e, nid).
+    Private emulation of a path-sensitive value environment: canon.expr resolves a local only when ONE definition
+    reaches the use over the whole CFG, which fails for a result handed back through an out-parameter of a helper
+    that has error exits (`T x; if (helper(.., &x) != OK) return ..; use(x)`).  On a single path the value is known."""
+
+    def select(self, F, nid, ctx):
+        tok = super().select(F, nid, ctx)
+        nd = F.nodes[nid]
+        extra = []
+        if nd.get("k") == "decl":
+            extra = [("def", v["n"], v["init"], nid) for v in nd["vars"] if "init" in v]
+        elif nd.get("k") == "bin" and nd.get("asg") and nd["op"] == "=":
+            ln = F.nodes[F.strip(nd["lh"])]
+            if ln.get("k") == "ref" and ln.get("dk") == "var":
+                extra = [("def", ln["n"], nd["rh"], nid)]
+        if not extra:
+            return tok
+        return (tok if isinstance(tok, list) else [tok] if tok else []) + extra
+
+
+def _annotate(F, toks):
+    """(tokens without the `def` bookkeeping, info): info[i] holds the canonical rendering of the i-th token's
+    operands (call arguments, indirect callee slot, stored value) with every local replaced by the value it holds
+    on THIS path."""
+    env, out, info = {}, [], []
+    for t in toks:
+        if t[0] == "def":
+            env[t[1]] = canon.expr(F, t[2], env=env)
+            continue
+        d = {}
+        nd = F.nodes[t[-1]] if t[0] in ("call", "icall", "st") else None
+        if t[0] in ("call", "icall"):
+            d["args"] = [canon.expr(F, x, env=env) for x in nd["a"]]
+            if t[0] == "icall":
+                d["slot"] = canon.expr(F, nd["fe"], env=env)
+        elif t[0] == "st":
+            d["val"] = canon.expr(F, nd["rh"], env=env) if isinstance(t[3], str) and "rh" in nd else t[3]
+        out.append(t)
+        info.append(d)
+    return out, info
+
+
+def _unit_kind(F, text):
+    """Which unit a canonical value denotes: 'new' = the result of the new pool's create_unit, 'old' = the unit
+    the work unit was associated with on entry (ABTI_thread::unit, or the ABT_unit parameter of the function)."""
+    if _CREATED.match(text):
+        return "new"
+    if text == CUR_UNIT or text in [p["n"] for p in F.params if p["t"].replace(" ", "") == "ABT_unit"]:
+        return "old"
+    return None
+
+
+def _r1_cond(label):
+    s = _eq_sides(label)
+    if s is not None and (_CREATED.match(s[0]) or _CREATED.match(s[1])):
+        return "create-failed"       # created unit == ABT_UNIT_NULL
+    if label.startswith("ABTI_unit_map_thread("):
+        return "map-failed"          # result of the registration != ABT_SUCCESS
+    return None
+
+
+def _r1_summary(F, toks, info):
+    """Short, name-independent description of a path (used as the instance label)."""
+    out = []
+    params = [p["n"] for p in F.params]
+    for t, d in zip(toks, info):
+        if t[0] == "icall":
+            if d["slot"].endswith("p_create_unit"):
+                out.append("create_unit")
+            elif d["slot"].endswith("p_free_unit"):
+                old = canon.rooted(F, F.nodes[t[-1]]["fe"]).endswith("->p_pool->required_def.p_free_unit")
+                out.append("free_unit[%s pool](%s unit)" % ("old" if old else "new", _unit_kind(F, d["args"][1]) if len(d["args"]) > 1 else None))
+            else:
+                out.append("(*%s)" % d["slot"])
+        elif t[0] == "call":
+            out.append(t[1].replace("ABTI_unit_", "").replace("ABTI_pool_", "") +
+                       ("(cur pool)" if t[1] == "ABTI_pool_get_handle" and d["args"] == [CUR_POOL] else ""))
+        elif t[0] == "st":
+            k = _unit_kind(F, str(d["val"]))
+            out.append("%s %s %s" % (t[1].split("::")[1], t[2], k + " unit" if k else ("param" if str(d["val"]) in params else d["val"])))
+        elif t[0] == "if":
+            out.append("[%s%s]" % ("" if t[2] else "!", t[1]))
+    return " ; ".join(out)
+
 
 def rule_R1(P, rep):
     for fn in FUNCS:
         F = P.fn(fn, UH)
-        sel = seq.Sel(calls={"ABTI_unit_map_thread", "ABTI_unit_unmap_thread", "ABTI_unit_init_builtin", "ABTI_pool_get_handle"},
-                      fields={"unit", "p_pool"}, indirect=True, decls={"old_pool", "pool", "new_unit", "unit"},
-                      conds=lambda t: "new_unit" in t or t.startswith("ret ") or "ret !=" in t)
-        ps = [p for p in seq.sequences(F, sel, max_len=60) if p[1] == "ret"]
+        sel = _ValueSel(calls={"ABTI_unit_map_thread", "ABTI_unit_unmap_thread", "ABTI_unit_init_builtin", "ABTI_pool_get_handle"},
+                        fields={"unit", "p_pool"}, indirect=True, conds=_r1_cond, canon=True)
+        ps = [p for p in seq.sequences(F, sel, max_len=120) if p[1] == "ret"]
         rep.need(len(ps) >= 2, "%s: %d paths" % (fn, len(ps)))
         for toks, kind, rv, rtxt in ps:
             why = []
-            creates = [i for i, t in enumerate(toks) if t[0] == "icall" and t[1].endswith("p_create_unit")]
-            frees = [i for i, t in enumerate(toks) if t[0] == "icall" and t[1].endswith("p_free_unit")]
+            toks, info = _annotate(F, toks)
+            args = lambda i: info[i]["args"]
+            creates = [i for i, t in enumerate(toks) if t[0] == "icall" and info[i]["slot"].endswith("p_create_unit")]
+            frees = [i for i, t in enumerate(toks) if t[0] == "icall" and info[i]["slot"].endswith("p_free_unit")]
             maps = idx(toks, is_call("ABTI_unit_map_thread"))
             unmaps = idx(toks, is_call("ABTI_unit_unmap_thread"))
-            st_unit = [i for i, t in enumerate(toks) if t[0] == "st" and t[1] == "ABTI_thread::unit"]
-            st_pool = [i for i, t in enumerate(toks) if t[0] == "st" and t[1] == "ABTI_thread::p_pool"]
+            st_unit = [i for i, t in enumerate(toks) if t[0] == "st" and t[1] == CUR_UNIT]
+            st_pool = [i for i, t in enumerate(toks) if t[0] == "st" and t[1] == CUR_POOL]
             success = (rv == 0) or (rv is None and rtxt is None)
+            freed = {i: (args(i) + ["?", "?"])[:2] for i in frees}      # i -> [pool handle, unit] (canonical)
             if len(creates) > 1 or len(maps) > 1 or len(unmaps) > 1:
                 why.append("create/map/unmap more than once")
             if creates:
                 if success:
-                    if len(maps) != 1 or maps[0] < creates[0] or "var:new_unit" not in toks[maps[0]][2]:
+                    if len(maps) != 1 or maps[0] < creates[0] or _unit_kind(F, (args(maps[0]) + ["?", "?"])[1]) != "new":
                         why.append("created unit not registered in the unit->thread map")
-                    st_new = [i for i in st_unit if toks[i][3] == "new_unit"]
+                    st_new = [i for i in st_unit if _unit_kind(F, str(info[i]["val"])) == "new"]
                     if len(st_new) != 1 or (maps and st_new[0] < maps[0]):
                         why.append("created unit not stored into the work unit after the registration")
                 else:
                     mapped_failed = bool(maps)
-                    new_frees = [i for i in frees if F.render(F.nodes[toks[i][-1]]["a"][1]) == "new_unit"]
+                    new_frees = [i for i in frees if _unit_kind(F, freed[i][1]) == "new"]
                     if mapped_failed:
                         if len(new_frees) != 1:
                             why.append("registration failed but the created unit is not given back exactly once")
-                        elif F.render(F.nodes[toks[new_frees[0]][-1]]["a"][0]) != "pool":
-                            why.append("created unit given back to %s instead of the pool that created it" %
-                                       F.render(F.nodes[toks[new_frees[0]][-1]]["a"][0]))
+                        else:
+                            # handle and free_unit slot of the pool that created the unit: same handle value as passed
+                            # to create_unit, same pool object (rooted access path) for the two slots
+                            cr, fr = F.nodes[toks[creates[0]][-1]], F.nodes[toks[new_frees[0]][-1]]
+                            if freed[new_frees[0]][0] != (args(creates[0]) + ["?"])[0] or \
+                                    canon.rooted(F, fr["fe"]) != re.sub(r"p_create_unit$", "p_free_unit", canon.rooted(F, cr["fe"])):
+                                why.append("created unit given back to %s (%s) instead of the pool that created it" %
+                                           (freed[new_frees[0]][0], canon.rooted(F, fr["fe"])))
                     elif new_frees:
                         why.append("create_unit failed but free_unit is called")
             if not success and (st_unit or st_pool):
                 why.append("error path modifies the work unit's unit/pool")
+            if any(_unit_kind(F, freed[i][1]) is None for i in frees):
+                why.append("free_unit called on a unit that is neither the created nor the old one (%s)" %
+                           [freed[i][1] for i in frees if _unit_kind(F, freed[i][1]) is None])
             # old user unit: unmap then free with the old pool's handle read before p_pool is overwritten
-            old_frees = [i for i in frees if F.render(F.nodes[toks[i][-1]]["a"][1]) == "unit"]
+            old_frees = [i for i in frees if _unit_kind(F, freed[i][1]) == "old"]
             if unmaps or old_frees:
                 if len(unmaps) != 1 or len(old_frees) != 1:
                     why.append("old unit must be unregistered once and released once (unmap %d, free %d)" % (len(unmaps), len(old_frees)))
@@ -79,16 +199,17 @@ def rule_R1(P, rep):
                     if not unmaps[0] < old_frees[0]:
                         why.append("old unit released before it is removed from the unit->thread map (a recycled handle "
                                    "would be unmapped instead)")
-                    harg = F.render(F.nodes[toks[old_frees[0]][-1]]["a"][0])
-                    if harg != "old_pool":
+                    harg = freed[old_frees[0]][0]
+                    if harg != OLD_HANDLE:
                         why.append("old unit released with %s instead of the old pool's handle" % harg)
-                    od = [i for i, t in enumerate(toks) if t[0] == "decl" and t[1] == "old_pool"]
-                    if not od or "p_thread->p_pool" not in toks[od[0]][2]:
+                    # where the old pool's handle is computed on this path: ABTI_pool_get_handle(<unit>->p_pool)
+                    od = [i for i, t in enumerate(toks) if t[0] == "call" and t[1] == "ABTI_pool_get_handle" and args(i) == [CUR_POOL]]
+                    if not [i for i in od if i < old_frees[0]]:
                         why.append("old pool handle not derived from the unit's current pool")
-                    elif st_pool and od[0] > st_pool[0]:
+                    elif st_pool and max(od) > st_pool[0]:
                         why.append("old pool handle read after the association was overwritten")
-                    callee = F.render(F.nodes[toks[old_frees[0]][-1]]["fe"])
-                    if "p_thread->p_pool->" not in callee:
+                    callee = canon.rooted(F, F.nodes[toks[old_frees[0]][-1]]["fe"])
+                    if not callee.endswith("->p_pool->required_def.p_free_unit"):
                         why.append("free_unit of %s used for the old unit" % callee)
                     if st_pool and old_frees[0] > st_pool[0]:
                         why.append("old unit released through the pool pointer after it was overwritten")
@@ -96,38 +217,76 @@ def rule_R1(P, rep):
                         why.append("old association ended on an error path")
             # use after free
             for i in frees:
-                x = F.render(F.nodes[toks[i][-1]]["a"][1])
-                for t in toks[i + 1:]:
-                    if t[0] in ("call", "icall") and any(x == F.render(a) for a in F.nodes[t[-1]]["a"]):
-                        why.append("%s used after free_unit" % x)
-                    if t[0] == "st" and t[3] == x:
-                        why.append("%s stored after free_unit" % x)
-            rep.ob("R1", "%s path -> %s [%s]" % (fn, rtxt, show(toks)[:300]), not why, "; ".join(sorted(set(why))),
-                   loc="%s:%d" % (F.file, F.line), site="%s/%s/%s" % (fn, rtxt, show(toks)[:180]))
+                x = freed[i][1]
+                who = "%s unit" % _unit_kind(F, x) if _unit_kind(F, x) else x
+                for j in range(i + 1, len(toks)):
+                    if toks[j][0] in ("call", "icall") and x in args(j):
+                        why.append("%s used after free_unit" % who)
+                    if toks[j][0] == "st" and str(info[j]["val"]) == x:
+                        why.append("%s stored after free_unit" % who)
+            summ = _r1_summary(F, toks, info)
+            rep.ob("R1", "%s path -> %s [%s]" % (fn, rv if rv is not None else ("void" if rtxt is None else "non-constant"), summ),
+                   not why, "; ".join(sorted(set(why))), loc="%s:%d" % (F.file, F.line),
+                   site="%s/%s/%s" % (fn, rv if rv is not None else ("void" if rtxt is None else "non-constant"), summ[:180]))
     rep.min_instances("R1", 18)
+
+
+ENTRY_LOCK = ("ABTI_unit_to_thread_entry", "lock")
+ENTRY_LIST = ("ABTI_unit_to_thread_entry", "list")
+
+
+def _resolve(F, i, depth=3):
+    """Node a local (pointer / value temporary) stands for: follow single reaching definitions."""
+    i = F.strip(i)
+    while depth > 0:
+        nd = F.nodes[i]
+        if nd.get("k") != "ref" or nd.get("dk") != "var":
+            break
+        d = canon.reaching_def(F, nd["n"], i)
+        if not isinstance(d, int):
+            break
+        i = F.strip(d)
+        depth -= 1
+    return i
+
+
+def _lock_fields(F):
+    """lock key (as used by locks.run_locks) -> (record, field) of the lock object, through pointer temporaries."""
+    out = {}
+    for table in (tables.LOCK_ACQUIRE, tables.LOCK_COND_ACQUIRE):
+        for b, i in F.calls():
+            fn = F.nodes[i].get("fn")
+            if fn in table and len(F.nodes[i]["a"]) > table[fn]:
+                a = F.nodes[i]["a"][table[fn]]
+                out[locks.lock_key(F, a)] = F.field_of(_resolve(F, a))
+    return out
 
 
 def rule_R2(P, rep):
     M = P.fn("unit_map_thread", "src/unit.c")
     U = P.fn("unit_unmap_thread", "src/unit.c")
     G = P.fn("unit_get_thread_from_user_defined_unit", "src/unit.c")
-    LOCK = "ABTI_unit_to_thread_entry::lock"
     for F in (M, U):
         ts = locks.run_locks(P, F)
+        lf = _lock_fields(F)
         n = 0
+        seen = {}
         for bid, i in F.all_events():
             nd = F.nodes[i]
             writes = None
             if nd.get("k") == "bin" and nd.get("asg") and F.field_of(nd["lh"]) and F.field_of(nd["lh"])[0] in ("unit_to_thread", "ABTI_unit_to_thread_entry"):
-                writes = F.render(nd["lh"])
+                writes = F.fieldpath(nd["lh"])
             if nd.get("k") == "call" and "store" in (nd.get("fn") or "") and nd["a"] and F.field_of(nd["a"][0]) and \
                     F.field_of(nd["a"][0])[0] in ("unit_to_thread", "ABTI_unit_to_thread_entry"):
-                writes = F.render(nd["a"][0])
+                writes = F.fieldpath(nd["a"][0])
             if writes is None:
                 continue
             n += 1
+            seen[writes] = seen.get(writes, 0) + 1
+            if seen[writes] > 1:
+                writes = "%s (write #%d)" % (writes, seen[writes])
             helds = ts.at.get(i, set())
-            ok = bool(helds) and all(any(k.endswith("->lock") for k in h) for h in helds)
+            ok = bool(helds) and all(any(lf.get(k) == ENTRY_LOCK for k in h) for h in helds)
             rep.ob("R2", "%s writes %s under the bucket lock" % (F.name, writes), ok, "lock sets %s" % sorted(sorted(h) for h in helds),
                    loc=F.loc(i), site="%s/locked/%s" % (F.name, writes))
         rep.need(n >= 1, "%s: no map writes" % F.name)
@@ -135,8 +294,7 @@ def rule_R2(P, rep):
         rep.ob("R2", "%s releases the bucket lock on every exit" % F.name, not unb and not ts.errors,
                str([(F.loc(n) if n is not None else "", sorted(h)) for k, n, h in unb] + ts.errors), loc=F.file,
                site="%s/balance" % F.name)
-    sel = seq.Sel(calls=lambda c: c.startswith("atomic_") or c == "ABTU_malloc", fields={"p_thread", "p_next"},
-                  assigns={"p_cur"}, decls={"p_cur"})
+    sel = seq.Sel(calls=lambda c: c.startswith("atomic_") or c == "ABTU_malloc", fields={"p_thread", "p_next"}, canon=True)
     n = 0
     for toks, kind, rv, rtxt in seq.sequences(M, sel, max_repeat=1, max_len=60):
         pub = [i for i, t in enumerate(toks) if t[0] == "call" and t[1] == "atomic_release_store_unit_to_thread"]
@@ -149,12 +307,19 @@ def rule_R2(P, rep):
         if len([i for i in inits if i < pub[0]]) < 3:
             why.append("new node published before unit, p_thread and p_next are all written")
         nxt = [i for i, t in enumerate(toks) if t[0] == "st" and t[1] == "unit_to_thread::p_next"]
-        heads = [i for i, t in enumerate(toks) if t[0] == "decl" and t[1] == "p_cur" and "load_unit_to_thread(&p_entry->list)" in (t[2] or "")]
-        if not nxt or not heads or toks[nxt[-1]][3] != "p_cur":
+        # the successor stored into the new node: the value (through any temporary) must be a load of the bucket
+        # head, and that very load must be on this path, in the critical section of the publication
+        head = None
+        if nxt:
+            src = _resolve(M, M.nodes[toks[nxt[-1]][-1]]["rh"])
+            sn = M.nodes[src]
+            if sn.get("k") == "call" and "load_unit_to_thread" in (sn.get("fn") or "") and sn["a"] and M.field_of(sn["a"][0]) == ENTRY_LIST:
+                hs = [i for i, t in enumerate(toks) if t[0] == "call" and t[-1] == src and i < nxt[-1]]
+                head = hs[-1] if hs else None
+        if head is None:
             why.append("successor of the new node is not the list head")
         else:
-            h = [i for i in heads if i < nxt[-1]][-1]
-            if any(t[0] in ("rel", "acq") for t in toks[h:pub[0]]):
+            if any(t[0] in ("rel", "acq") for t in toks[head:pub[0]]):
                 why.append("the bucket lock is released between reading the list head and publishing the new node (a "
                            "concurrent insertion in between is lost)")
         rep.ob("R2", "unit_map_thread publishes a fully initialised node whose successor was read in the same critical section",
@@ -176,24 +341,35 @@ def rule_R3(P, rep):
     for b, i, lh, rh in F.stores():
         fo = F.field_of(lh)
         if fo and fo[0] == "ABTI_pool_required_def" and rh is not None:
-            got[fo[1]] = F.render(rh)
+            # the functions the stored value may denote (designator, or a local only ever assigned designators)
+            fv = F.func_values(rh)
+            got[fo[1]] = sorted(fv) if fv else [canon.expr(F, rh)]
     req = [f["n"] for f in P.record("ABTI_pool_required_def")["fields"]]
     for slot in req:
         w = want.get(slot)
-        rep.ob("R3", "legacy adapter fills required slot %s with %s" % (slot, w[0] if w else "?"), w is not None and got.get(slot) == w[0],
+        rep.ob("R3", "legacy adapter fills required slot %s with %s" % (slot, w[0] if w else "?"), w is not None and got.get(slot) == [w[0]],
                "assigned %s" % got.get(slot), loc=F.file, site="old_def/slot/%s" % slot)
         if w and P.fns(w[0]):
             W = P.fn(w[0], "src/pool/pool.c")
-            ic = [W.fieldpath(W.nodes[i]["fe"]) for b, i in W.calls() if "fe" in W.nodes[i]]
-            rep.ob("R3", "%s forwards to old_def.%s" % (w[0], w[1]), any(x.endswith("old_def." + w[1]) for x in ic), str(ic),
+            # the slot called: the old definition's field, reached directly (pool->old_def.f) or through a pointer
+            # to the old definition
+            ic = []
+            for b, i in W.calls():
+                if "fe" in W.nodes[i]:
+                    fe = _resolve(W, W.nodes[i]["fe"])
+                    ic.append((W.fieldpath(fe), W.field_of(fe)))
+            rep.ob("R3", "%s forwards to old_def.%s" % (w[0], w[1]),
+                   any(x.endswith("old_def." + w[1]) or fo == ("ABTI_pool_old_def", w[1]) for x, fo in ic), str([x for x, fo in ic]),
                    loc="%s:%d" % (W.file, W.line), site="old_def/wrapper/%s" % w[0])
     # the copied old definition preserves each slot
     old = {}
     for b, i, lh, rh in F.stores():
         fo = F.field_of(lh)
         if fo and fo[0] == "ABTI_pool_old_def" and rh is not None:
-            old[fo[1]] = F.render(rh)
-    bad = [(k, v) for k, v in old.items() if not (v.endswith("->" + k) or v in ("(void *)0", "0") or "0" == v)]
+            src = F.field_of(_resolve(F, rh))
+            cv = F.nodes[F.strip(rh)].get("cv")
+            old[fo[1]] = src[1] if src else (cv if cv is not None else canon.expr(F, rh))
+    bad = [(k, v) for k, v in old.items() if not (v == k or v == 0)]
     rep.ob("R3", "old definition slots are copied one to one", not bad and len(old) >= 6, "mismatches %s" % bad, loc=F.file,
            site="old_def/copy")
 
